@@ -136,8 +136,8 @@ func (j *c04Job) RunUnit(i int, c *run.Ctx) {
 		}
 		for qi, q := range j.queries[lo:hi] {
 			ps := c04Paths(q)
-			if j.tier != "thorough" && lo+qi >= j.nAtoms {
-				// composite expressions: five of the eight positions in the quick tier
+			if lo+qi >= j.nAtoms {
+				// composite expressions: five of the eight positions
 				ps = []*gen.Path{ps[0], ps[1], ps[3], ps[4], ps[7]}
 			}
 			paths = append(paths, ps...)
@@ -242,7 +242,7 @@ func init() {
 			"the clause about sharing one document between goroutines is explored by C06",
 		},
 		Bounds: map[string]string{
-			"quick":    "every atom (219), every A&&B / A||B over 24 atoms (1152) and 5 depth-3 shapes over 5 atoms (625) as a filter in 8 positions for the atoms and 5 for the composites ($[?], $.a[?], $..[?], $[?].a, $.c[?]; also $.*[?], $[?][?(@.a)], $[0][?] for the atoms and in the thorough tier); plus all paths of <=2 steps over the 50-step alphabet (functions after <=1 step); every document of <=4 nodes (scalars {1,\"a\",null}), the wide and member documents, plus 48 containers of 2..3 members that all / partly / never have the operand members; both decodings; plain and accessor mode; after every call the document of the previous call is checked too",
+			"quick":    "every atom (219), every A&&B / A||B over 24 atoms (1152) and 5 depth-3 shapes over 5 atoms (625) as a filter in 8 positions for the atoms and 5 for the composites ($[?], $.a[?], $..[?], $[?].a, $.c[?]; also $.*[?], $[?][?(@.a)], $[0][?] for the atoms); plus all paths of <=2 steps over the 50-step alphabet (functions after <=1 step); every document of <=4 nodes (scalars {1,\"a\",null}), the wide and member documents, plus 48 containers of 2..3 members that all / partly / never have the operand members; both decodings; plain and accessor mode; after every call the document of the previous call is checked too",
 			"thorough": "depth-3 shapes over 8 atoms (2560) on the quick documents; atoms, pairs and ladder paths on every document of <=5 nodes in both decodings",
 		},
 		New: newC04,
